@@ -523,4 +523,59 @@ def legacyCall (names : List String) (rules : List ((Nat × Nat) × OutRule))
   let outs ← legacyOutTuple rule out
   some (uname, { base with method := .call, nin := nin, nout := nout, outs := outs })
 
+/-! ### Legacy interface on product spaces (`ProductSpaceUfuncs`) -/
+
+/-- The three wrappers of `wrap_ufunc_productspace`. -/
+inductive PLegacyRule
+  | mapOrInto   -- (1,1): no out → `space.element([x.ufuncs.f() for x in elem])`; else into `out`
+  | twoOut      -- (1,2): missing outs are fresh elements OF THE SPACE; component calls write into them
+  | binary      -- (2,1): like `mapOrInto`, second operand zipped if it is in the space
+  deriving DecidableEq, Repr
+
+/-- bool < integers < floats < complex: NumPy's `same_kind` casting between these kinds. -/
+def DType.kindRank : DType → Nat
+  | .bool => 0
+  | .int8 | .int16 | .int32 | .int64 | .uint8 | .uint16 | .uint32 | .uint64 => 1
+  | .float16 | .float32 | .float64 | .longdouble => 2
+  | .complex64 | .complex128 | .clongdouble => 3
+  | .object => 4
+
+def castSameKind (src dst : DType) : Bool := src.kindRank ≤ dst.kindRank
+
+/-- `px.ufuncs.<name>(…)`: results are collected component-wise (NumPy's result is the
+parameter) and stored in an element of the ORIGINAL space (`self.elem.space.element(…)`):
+the wrapping space keeps the space's dtype whatever NumPy's result dtype is (open part of
+C17-F6).  A given `out` is returned itself. -/
+def powerLegacy (s : PSelf) (rule : PLegacyRule) (outs : List OutKind) (np : NpRes) : Outcome :=
+  match np with
+  | .err c => .err c
+  | .ok vals =>
+    match rule with
+    | .mapOrInto | .binary =>
+      (match vals with
+       | [.arr sh _] =>
+         if (outs.getD 0 .none).given then .ok [.given 0]
+         else if sh = s.shape then .ok [.wrapP s.shape s.dt] else .err "ValueError"
+       | _ => .err "ValueError")
+    | .twoOut =>
+      (match vals with
+       | [.arr _ d1, .arr _ d2] =>
+         let g1 := (outs.getD 0 .none).given
+         let g2 := (outs.getD 1 .none).given
+         -- a fresh out has the space's dtype: the component ufunc must cast into it
+         if (g1 || castSameKind d1 s.dt) && (g2 || castSameKind d2 s.dt) then
+           .ok [if g1 then .given 0 else .wrapP s.shape s.dt,
+                if g2 then .given 1 else .wrapP s.shape s.dt]
+         else .err "UFuncTypeError"
+       | _ => .err "ValueError")
+
+/-- `px.ufuncs.<name>` through the tables. -/
+def powerLegacyCall (names : List String) (rules : List ((Nat × Nat) × PLegacyRule))
+    (npTable : List (String × String × Nat × Nat)) (name : String) (s : PSelf)
+    (outs : List OutKind) (np : NpRes) : Option (String × Outcome) := do
+  if !names.contains name then Option.none
+  let (_, uname, nin, nout) ← npTable.find? (·.1 = name)
+  let (_, rule) ← rules.find? (·.1 = (nin, nout))
+  some (uname, powerLegacy s rule outs np)
+
 end OdlModel.Ufunc
